@@ -25,23 +25,25 @@ pub struct Parser {
   pub semis: Ghost<nat>,
   /// ghost: the blocks parsed, in order
   pub blocks: Ghost<Seq<Block>>,
+  /// ghost: the token kinds match_kind consumed, in order
+  pub matched: Ghost<Seq<TokenKind>>,
 }
 impl Parser {
   /// consume the current token if it is of this kind
   #[verifier::external_body] pub fn match_kind(&mut self, kind: TokenKind) -> (r: ParseResult<bool>)
     ensures final(self).fun_kind == old(self).fun_kind, final(self).exprs == old(self).exprs, final(self).semis == old(self).semis, final(self).blocks == old(self).blocks,
-      r matches Ok(b) ==> b == (old(self).current.k == kind) { unimplemented!() }
+      r matches Ok(b) ==> b == (old(self).current.k == kind) && final(self).matched@ == (if b { old(self).matched@.push(kind) } else { old(self).matched@ }) { unimplemented!() }
   #[verifier::external_body] pub fn expr(&mut self) -> (r: ParseResult<Expr>)
-    ensures final(self).fun_kind == old(self).fun_kind, final(self).semis == old(self).semis, final(self).blocks == old(self).blocks,
+    ensures final(self).fun_kind == old(self).fun_kind, final(self).semis == old(self).semis, final(self).blocks == old(self).blocks, final(self).matched == old(self).matched,
       r matches Ok(e) ==> final(self).exprs@ == old(self).exprs@.push(e) { unimplemented!() }
   #[verifier::external_body] pub fn consume_basic(&mut self, kind: TokenKind, message: &str) -> (r: ParseResult<()>)
-    ensures final(self).fun_kind == old(self).fun_kind, final(self).exprs == old(self).exprs, final(self).blocks == old(self).blocks,
+    ensures final(self).fun_kind == old(self).fun_kind, final(self).exprs == old(self).exprs, final(self).blocks == old(self).blocks, final(self).matched == old(self).matched,
       r is Ok ==> final(self).semis@ == old(self).semis@ + (if kind == TokenKind::Semicolon { 1nat } else { 0nat }) { unimplemented!() }
   #[verifier::external_body] pub fn error<T>(&mut self, message: &str) -> (r: ParseResult<T>)
     ensures r is Err, final(self).fun_kind == old(self).fun_kind { unimplemented!() }
   #[verifier::external_body] pub fn error_current<T>(&mut self, message: &str) -> (r: ParseResult<T>) ensures r is Err { unimplemented!() }
   #[verifier::external_body] pub fn block(&mut self, block_return: BlockReturn) -> (r: ParseResult<Block>)
-    ensures final(self).fun_kind == old(self).fun_kind, final(self).exprs == old(self).exprs, final(self).semis == old(self).semis,
+    ensures final(self).fun_kind == old(self).fun_kind, final(self).exprs == old(self).exprs, final(self).semis == old(self).semis, final(self).matched == old(self).matched,
       r matches Ok(b) ==> final(self).blocks@ == old(self).blocks@.push(b) { unimplemented!() }
   #[verifier::external_body] pub fn node<T>(&self, t: T) -> (r: Box<T>) ensures *r == t { unimplemented!() }
 }
